@@ -42,6 +42,8 @@ type RunResult struct {
 	Steps        int64                     `json:"steps"`
 	Wraps        int                       `json:"wraps_emitted"`
 	InexactUse   int                       `json:"inexact_float_uses"`
+	IfConv       int                       `json:"if_conversions"`
+	IfConvAbort  int                       `json:"if_conversions_aborted"`
 	Notes        []string                  `json:"notes,omitempty"`
 	Panics       []PanicInfo               `json:"panics,omitempty"`
 	Problems     []string                  `json:"problems,omitempty"` // unsupported / inconclusive / budget details
@@ -147,6 +149,8 @@ func Explore(p *Program, entry *ssa.Function, o RunOpts, onPath func(*Exec, Path
 				res.Steps += int64(pr.Steps)
 				res.Wraps += pr.Wraps
 				res.InexactUse += pr.InexactUse
+				res.IfConv += pr.IfConv
+				res.IfConvAbort += pr.IfConvAborted
 				if pr.Decisions > res.MaxDecisions {
 					res.MaxDecisions = pr.Decisions
 				}
